@@ -43,7 +43,7 @@ def permutations_and_splits(run, tier, rng):
                 take = rng.randint(1, B - k)
                 rows = data[order[k:k + take]]
                 if take == 1 and rng.random() < 0.7:
-                    s.accumulate(rows[0].astype(rng.choice(dtypes)))
+                    s.accumulate(rows[0].astype(rng.choice(dtypes)), **rng.choice([{}, {"axis": 0}, {"axis": -1}]))
                     plan.append(("vec", order[k:k + take]))
                 else:
                     t, axis = std_model.layout_tensor([list(map(int, r)) for r in rows], rng, rng.choice(dtypes))
